@@ -1,6 +1,8 @@
 import CTV.Gen.Scan
 import CTV.Gen.Migrate
 import CTV.Lemmas.Migrate
+import CTV.Rfc6962.Merkle
+import CTV.Props.C16
 /-!
 # C20 — Migration mirrors the source entry for entry and refuses inconsistent sources
 
@@ -20,6 +22,9 @@ open CTV.Model.Scan CTV.Model.Migrate
 
 namespace C20
 
+/-- configuration used in the loop example -/
+def exCfg0 : Cfg := { src := fun i => 100 + i, idf := fun i p => 1000 * i + p, retryQuota := true }
+
 /-! ## regenerated arithmetic and decisions = the model's -/
 
 /-- `fetchTail` starts at `max(destination tree size, begin)` in continuous mode and for a negative configured start,
@@ -38,6 +43,29 @@ theorem fetchTail_start_arith (cont : Bool) (cfgStart : Int) (treeSize begin : N
     · simp only [hn, decide_true, if_true]; split <;> rename_i h <;> simp only [decide_eq_true_eq] at h <;> omega
     · simp only [hn, decide_false, Bool.false_eq_true, if_false]
       split <;> rename_i h <;> simp only [decide_eq_true_eq] at h <;> omega
+
+/-- The same for the whole start computation **in the order the code performs it** (`Gen.fetchTailRange` is the statement
+sequence between `fo := c.opts.FetcherOptions` and the log line, translated in order): the pass starts at `passStart`, in
+continuous mode the configured end is ignored, and the inner fetcher is never continuous. Moving the `begin` clamp above
+the mode branch (so that continuous mode forgets the position) makes this false. -/
+theorem fetchTail_range_arith (cont : Bool) (cfgStart cfgEnd : Int) (treeSize begin : Nat)
+    (h1 : cfgStart < 2^63) (h2 : (treeSize : Int) < 2^63) (h3 : (begin : Int) < 2^63) :
+    Gen.fetchTailRange cfgStart cfgEnd cont treeSize begin
+      = (((passStart cont cfgStart treeSize begin : Nat) : Int), (if cont then 0 else cfgEnd), false) := by
+  have w : I64.wrap64 (begin : Int) = begin := I64.wrap64_id' _ (by omega) h3
+  have w2 : I64.wrap64 (treeSize : Int) = treeSize := I64.wrap64_id' _ (by omega) h2
+  simp only [Gen.fetchTailRange, passStart, w, w2]
+  cases cont with
+  | true =>
+    simp only [if_true]
+    split <;> rename_i h <;> simp only [decide_eq_true_eq] at h <;> simp <;> omega
+  | false =>
+    simp only [Bool.false_eq_true, if_false]
+    by_cases hn : cfgStart < 0
+    · simp only [hn, decide_true, if_true]
+      split <;> rename_i h <;> simp only [decide_eq_true_eq] at h <;> simp <;> omega
+    · simp only [hn, decide_false, Bool.false_eq_true, if_false]
+      split <;> rename_i h <;> simp only [decide_eq_true_eq] at h <;> simp <;> omega
 
 /-- the early exit and the empty-root shortcut of the code are the model's `gate` tests -/
 theorem gate_tests (sth begin treeSize : Nat) :
@@ -92,6 +120,39 @@ theorem gate_refuses (treeSize sth begin : Nat) (h0 : treeSize ≠ 0) (hb : begi
 example : gate false 10 20 0 false = .refused ∧ gate false 10 20 0 true = .proceed ∧ gate false 0 20 0 false = .proceed
     ∧ gate true 10 20 0 false = .proceed ∧ gate false 10 20 20 false = .upToDate := by decide
 
+/-- **What the gate's proof means.** With `proofOk` instantiated by the project's model of `proof.VerifyConsistency`
+(`Merkle.verifyConsistency`, RFC 6962 §2.1.2, tied to transparency-dev/merkle by C19's correspondence run): if a pass over a
+non-empty destination root `destRoot` of size `t` proceeds with the check enabled, then — unless a hash of the source tree has a
+second preimage (`NoCollision`, a hypothesis, never an axiom) — `destRoot` is the Merkle root of the first `t` leaves of the
+source whose STH `(srcLeaves.length, mth srcLeaves)` the pass fetched: the destination's history is a prefix of the source's. -/
+theorem gate_means {α Hash : Type} [DecidableEq Hash] (leafH : α → Hash) (nodeH : Hash → Hash → Hash) (emptyH : Hash)
+    (srcLeaves : List α) (t begin : Nat) (pf : List Hash) (destRoot : Hash) (ht : 0 < t)
+    (nc : Merkle.NoCollision leafH nodeH emptyH srcLeaves)
+    (h : gate false t srcLeaves.length begin
+           (Merkle.verifyConsistency nodeH t srcLeaves.length pf destRoot (Merkle.mth leafH nodeH emptyH srcLeaves)) = .proceed) :
+    t ≤ srcLeaves.length ∧ destRoot = Merkle.mth leafH nodeH emptyH (srcLeaves.take t) := by
+  have hg := gate_sound false t srcLeaves.length begin _ h
+  rcases hg with h0 | h0 | h0
+  · omega
+  · cases h0
+  · exact Merkle.verifyConsistency_sound leafH nodeH emptyH srcLeaves t pf destRoot nc ht h0
+
+/-- the order of `verifyConsistency`'s tests and the arguments it hands to `proof.VerifyConsistency`, regenerated: empty root
+first, then the operator's switch, then the proof request; sizes `(treeSize, sth.TreeSize)`, then the proof, then the roots
+`(destination root, STH root)` — the argument order of `gate` / `Merkle.verifyConsistency` above -/
+theorem gate_order_and_args :
+    Gen.gateOrder = ["if treeSize == 0", "if c.opts.NoConsistencyCheck", "if err != nil",
+      "return proof.VerifyConsistency(rfc6962.DefaultHasher, treeSize, sth.TreeSize, pf, rootHash, sth.SHA256RootHash[:])"] ∧
+    Gen.verifyConsistencyArgs = ["rfc6962.DefaultHasher", "treeSize", "sth.TreeSize", "pf", "rootHash", "sth.SHA256RootHash[:]"] := by
+  decide
+
+/-- which Go function each configured identity function selects, what `idHashCertData` hashes and how `idHashLeafIndex` encodes the
+index — regenerated (the bytes themselves are compared by the harness oracle `identity-hash`) -/
+theorem identity_functions :
+    Gen.idFuncTable = [("configpb.IdentityFunction_SHA256_CERT_DATA", "idHashCertData"), ("configpb.IdentityFunction_SHA256_LEAF_INDEX", "idHashLeafIndex")] ∧
+    Gen.idHashCertDataArg = ["entry.Cert.Data"] ∧ Gen.idHashLeafIndexEncode = ["data", "uint64(index)"] := by
+  decide
+
 /-! ## one pass, every interleaving -/
 
 /-- the invariant holds in every reachable state of a pass -/
@@ -115,6 +176,25 @@ theorem dest_faithful (c : Cfg) (start end_ batch fetchers submitters : Nat) (de
     rw [hc.1] at h2; rw [hc.2] at h3
     exact ⟨hf.1, hf.2, h2, h3⟩
 
+/-- `Prepare` never moves the end of a pass beyond the STH the gate saw -/
+theorem passEnd_le (sth cfgEnd : Nat) (h : (sth : Int) < 2^63) : passEnd sth cfgEnd ≤ sth := by
+  have := (C16.prepare_end sth cfgEnd (by omega) h (by omega)).2
+  simp only [passEnd]
+  cases hr : Gen.prepareResets (sth : Int) (cfgEnd : Int) with
+  | true => simp
+  | false => simp only [hr, Bool.false_eq_true, if_false] at this ⊢; omega
+
+/-- **Nothing beyond the tree size it verified**, stated with the STH itself: a pass over `[start, passEnd sth cfgEnd)` adds only
+records with `idx < sth`. -/
+theorem dest_faithful_verified (c : Cfg) (start sth cfgEnd batch fetchers submitters : Nat) (dest0 : List Stored) (ops : List POp) (x : Stored)
+    (hs : (sth : Int) < 2^63)
+    (hx : x ∈ (prun c (pinit start (passEnd sth cfgEnd) batch fetchers submitters dest0) ops).dest) :
+    x ∈ dest0 ∨ (x.payload = c.src x.idx ∧ x.idHash = c.idf x.idx x.payload ∧ start ≤ x.idx ∧ x.idx < sth) := by
+  rcases dest_faithful c start (passEnd sth cfgEnd) batch fetchers submitters dest0 ops x hx with h | h
+  · exact Or.inl h
+  · have := passEnd_le sth cfgEnd hs
+    exact Or.inr ⟨h.1, h.2.1, h.2.2.1, by omega⟩
+
 /-- **Mirror, part 2 (completeness).** When a pass returns nil (`passOk`), every index of `[start, end)` is in the destination
 with the source's `leaf_input`/`extra_data` and the configured identity hash. -/
 theorem mirror_exact (c : Cfg) (start end_ batch fetchers submitters : Nat) (dest0 : List Stored) (ops : List POp)
@@ -125,7 +205,7 @@ theorem mirror_exact (c : Cfg) (start end_ batch fetchers submitters : Nat) (des
   generalize prun c (pinit start end_ batch fetchers submitters dest0) ops = s at *
   simp only [passOk, Bool.and_eq_true, Bool.not_eq_true', List.isEmpty_iff] at hok
   obtain ⟨⟨⟨⟨⟨⟨hcl, hwi⟩, hst⟩, hca⟩, hfa⟩, hch⟩, hsi⟩ := hok
-  have hdel := (inv_idle c.env s.f h.fi hwi).2 hcl hst i
+  have hdel := (inv_idle c.env s.f h.fi hwi).2.2 hcl hst i
   have hstage := h.stage i
   have hlost : s.lost = [] := by
     cases hl : s.lost with
@@ -140,13 +220,21 @@ theorem mirror_exact (c : Cfg) (start end_ batch fetchers submitters : Nat) (des
   obtain ⟨b, hb, hb1, hb2⟩ := bcnt_pos s.acked i (by omega)
   exact h.ackedIn b hb i hb1 hb2
 
-/-- **Unparsable certificates are copied verbatim.** The stored record is a function of the index and the source bytes only;
-in particular it is the same whether or not the certificate inside the entry parses (`parses` is any predicate). -/
-theorem unparsable_verbatim (c : Cfg) (parses : Nat → Bool) (start end_ batch fetchers submitters : Nat) (dest0 : List Stored) (ops : List POp)
-    (hok : passOk (prun c (pinit start end_ batch fetchers submitters dest0) ops) = true) (i : Nat) (h1 : start ≤ i) (h2 : i < end_)
-    (hbad : parses i = false) :
-    (⟨i, c.src i, c.idf i (c.src i)⟩ : Stored) ∈ (prun c (pinit start end_ batch fetchers submitters dest0) ops).dest :=
-  mirror_exact c start end_ batch fetchers submitters dest0 ops hok i h1 h2
+/-- **Unparsable certificates are copied verbatim.** `buildLogLeaf`'s only error return is the one guarded by the
+`RawLogEntryFromLeaf` error (regenerated: `Gen.buildLogLeafErrorReturns`; the two certificate-parsing outcomes are only logged), so
+for every entry that *is* an RFC 6962 entry — certificate fine, parsing with non-fatal errors, or not parsing at all — the leaf
+built is the same function of the index and the source bytes, which is the record `mirror_exact` finds in the destination. (An
+entry whose `leaf_input` is not a MerkleTreeLeaf makes `buildLogLeaf`, hence the batch and the pass, fail: `buildLeaf … = none`;
+that is not a certificate problem and outside this clause.) -/
+theorem unparsable_verbatim (c : Cfg) (k : LeafKind) (i : Nat) (hk : k ≠ .leafUndecodable) :
+    buildLeaf c k i = some ⟨i, c.src i, c.idf i (c.src i)⟩ ∧ buildLeaf c .leafUndecodable i = none := by
+  have hg : Gen.buildLogLeafErrorReturns = ["rle, err := ct.RawLogEntryFromLeaf(index, entry) ;; err != nil"] := by decide
+  constructor
+  · simp only [buildLeaf, hg, and_true, if_true]
+    simp [hk]
+  · simp [buildLeaf, hg]
+
+example : buildLeaf (exCfg0) .certFatal 7 = some ⟨7, 107, 7107⟩ ∧ buildLeaf (exCfg0) .certNonFatal 7 = buildLeaf (exCfg0) .certOk 7 := by decide
 
 /-- **Quota replies are retried** (with the retry policy): a `ResourceExhausted` answer changes nothing — the batch stays in
 flight at its submitter, the pass is neither failed nor cancelled — so `mirror_exact` holds for runs with any number of
@@ -161,15 +249,60 @@ theorem quota_not_retried_fails (c : Cfg) (hr : c.retryQuota = false) (s : PSt) 
   simp only [pstep, hj, hr]
   simp [passOk, giveUp, step]
 
-/- FULL: the code's own policy is the retrying one:
-     theorem code_retries_quota : codeRetriesQuota = true
-   (`codeRetriesQuota` = the regenerated switch asks for a retry on code 8 ∧ the regenerated `errRetry` is a
-   `backoff.RetriableError`). On the unchanged tree `Gen.errRetryIsRetriable = false`: `errRetry = errors.New("retry")`
-   is not recognised by `backoff.Retry` (trillian v1.7.1 retries only gRPC codes and `backoff.RetriableError`), so the
-   quota reply aborts the pass — finding C20-1 (known_findings.d/C20.json, fixes/C20-1.diff, harness scenarios q0/q1). With the fix
-   applied the statement is `by decide`. Proved here: the half that holds on both trees (the switch). -/
-theorem code_retries_quota_partial : codeRetriesQuota = Gen.errRetryIsRetriable := by
-  simp [codeRetriesQuota, switch_asks_retry_only_on_quota.1]
+/-- **The code retries quota replies.** The submitter's policy as regenerated from trillian.go — the `switch` asks for a retry on
+code 8 *and* the error value it returns for that, `errRetry`, is a `backoff.RetriableError`, the only kind of plain error
+`backoff.Retry` retries — is the retrying one; so `quota_retried` applies to the code.
+(Before fix e04c406 `errRetry` was `errors.New("retry")`, `Gen.errRetryIsRetriable` was `false`, this theorem was false and
+`quota_not_retried_fails` described the code: finding C20-1, harness scenarios q0/q1.) -/
+theorem code_retries_quota : codeRetriesQuota = true := by decide
+
+/-- hence, for the code's own configuration, a quota reply is a no-op on the pass -/
+theorem code_quota_noop (src : Nat → Nat) (idf : Nat → Nat → Nat) (s : PSt) (j : Nat) :
+    pstep ⟨src, idf, codeRetriesQuota⟩ s (.quota j) = s :=
+  quota_retried ⟨src, idf, codeRetriesQuota⟩ code_retries_quota s j
+
+theorem one_le_three_pow (n : Nat) : (1 : Int) ≤ 3 ^ n := by
+  induction n with
+  | zero => simp
+  | succ n ih => rw [Int.pow_succ]; omega
+
+/-- **… with back-off.** The retry closure runs under `backoff.Backoff{Min: 1 s, Max: 1 min, Factor: 3, Jitter}` (regenerated): the
+parameters satisfy the library's contract (`0 < Min ≤ Max ≤ 2^62` ns, `Factor ≥ 1`), so the nominal pause before the `n`-th retry,
+`quotaPause n = min(Min·Factorⁿ, Max)`, is at least 1 s, never above 1 min and non-decreasing. (The pauses themselves are not in the
+model — a retry is a no-op step; the harness observes them under virtual time: oracle `backoff`.) -/
+theorem quota_backoff (n : Nat) :
+    Gen.quotaBackoffMin = 1000000000 ∧ Gen.quotaBackoffMax = 60000000000 ∧ Gen.quotaBackoffFactor = 3 ∧ Gen.quotaBackoffJitter = true ∧
+    Gen.quotaBackoffMin ≤ quotaPause n ∧ quotaPause n ≤ Gen.quotaBackoffMax ∧ quotaPause n ≤ quotaPause (n + 1) := by
+  have h1 : Gen.quotaBackoffMin = 1000000000 := by decide
+  have h2 : Gen.quotaBackoffMax = 60000000000 := by decide
+  have h3 : Gen.quotaBackoffFactor = 3 := by decide
+  refine ⟨h1, h2, h3, by decide, ?_, ?_, ?_⟩
+  · simp only [quotaPause, h1, h2, h3]
+    have : (1 : Int) ≤ 3 ^ n := one_le_three_pow n
+    omega
+  · simp only [quotaPause, h1, h2, h3]; omega
+  · simp only [quotaPause, h1, h2, h3, Int.pow_succ]
+    have : (1 : Int) ≤ 3 ^ n := one_le_three_pow n
+    omega
+
+/-- **A refused leaf fails the pass.** If the destination refuses leaves of a batch (per-leaf status in an OK reply: Trillian does so
+for an identity hash or an index that is already taken), the pass can no longer return nil — so `mirror_exact`'s "nil ⇒ everything
+mirrored" is not undermined by silently dropped leaves — while what *was* stored stays faithful (`pinv_reachable` covers `ackPartial`). -/
+theorem partial_ack_fails_pass (c : Cfg) (s : PSt) (j : Nat) (b : Batch) (refused : List Nat)
+    (hj : s.subs[j]? = some (some b)) : passOk (pstep c s (.ackPartial j refused)) = false := by
+  obtain ⟨lo, k⟩ := b
+  simp only [pstep, hj]
+  simp [passOk, giveUp, step]
+
+/- FULL: the code treats a refused leaf as a failed batch:
+     theorem code_checks_leaf_results : Gen.addSeqChecksResults = true
+   On the unchanged tree `addSequencedLeaves` never looks at `rsp.Results` ("TODO: Check rsp.Results statuses"): a reply with
+   code OK whose per-leaf status is FailedPrecondition "conflicting LeafIdentityHash" counts as success, the leaf is not in the
+   destination, the pass returns nil, and the hole is permanent (the sequencer cannot pass it) — finding C20-2
+   (known_findings.d/C20.json, fixes/C20-2-not-applied.diff.txt (not applied: Trillian reports an identical re-submission with the same status, so the patch would fail every pass after a restart until the signer catches up); harness scenario f1: 57 entries drawn from 8 certificates, SHA256_CERT_DATA, empty
+   destination: Run returns nil, index 8 refused because its identity hash is already stored under index 16). The model above is the
+   property's intent (`ackPartial` fails the pass); the driver follows the regenerated flag so that the trace of the unchanged code is
+   still explained step by step, and the oracle `leaf-refused` / `gap` exhibits the hole. With the fix the statement is `by decide`. -/
 
 /-! ## passes compose: restarts, mastership changes, resumption -/
 
@@ -231,10 +364,10 @@ def runPasses (c : Cfg) (dest : List Stored) : List PassSpec → List Stored
   | [] => dest
   | p :: t => runPasses c (prun c (pinit p.start p.end_ p.batch p.fetchers p.submitters dest) p.ops).dest t
 
-/-- **No gaps, reordering or conflicting duplicates across any history of passes**: the destination stays a faithful copy
-(so equal indices carry equal records) and never loses a record, whatever happens in each pass and however many times
-the migration is restarted. -/
-theorem no_gap_reorder_conflict (c : Cfg) (dest0 : List Stored) (ps : List PassSpec) (h0 : AllFaithful c dest0) :
+/-- Arbitrary passes with *arbitrary* start indices (no bookkeeping at all): the destination stays a faithful copy (so equal indices
+carry equal records: no reordering, no conflicting duplicates) and never loses a record. Gap-freedom needs the Controller's
+bookkeeping of the start index: `no_gap_reorder_conflict` below. -/
+theorem passes_faithful_monotone (c : Cfg) (dest0 : List Stored) (ps : List PassSpec) (h0 : AllFaithful c dest0) :
     AllFaithful c (runPasses c dest0 ps) ∧ (∀ x ∈ dest0, x ∈ runPasses c dest0 ps) := by
   induction ps generalizing dest0 with
   | nil => exact ⟨h0, fun x hx => hx⟩
@@ -244,6 +377,94 @@ theorem no_gap_reorder_conflict (c : Cfg) (dest0 : List Stored) (ps : List PassS
     refine ⟨this.1, ?_⟩
     intro x hx
     exact this.2 x (pass_monotone c p.start p.end_ p.batch p.fetchers p.submitters dest0 p.ops x hx)
+
+/-! ## the Controller's continuous loop: the position is never forgotten -/
+
+/-- what `Run` maintains between passes: the destination is a faithful copy and holds everything below the position -/
+def RunInv (c : Cfg) (s : RunSt) : Prop := AllFaithful c s.dest ∧ ∀ i, i < s.pos → covered s.dest i
+
+/-- **One iteration of `Controller.Run`.** Under the destination's contract (its reported tree size never exceeds its stored
+prefix), an iteration keeps the invariant — so the hypothesis of `pass_extends_prefix` is discharged by the loop itself: the
+pass starts at `max(treeSize, pos)`, below which everything is present — never loses a record, **and adds nothing below the
+position it had reached**: continuous mode does not go back over entries it has already submitted, however far the
+destination's signed root lags behind. -/
+theorem controller_iter (c : Cfg) (s : RunSt) (it : Iter) (h : RunInv c s)
+    (hcontract : ∀ i, i < it.treeSize → covered s.dest i) :
+    RunInv c (runIter c s it) ∧ (∀ x ∈ s.dest, x ∈ (runIter c s it).dest) ∧
+    (∀ x ∈ (runIter c s it).dest, x ∈ s.dest ∨
+      ((if it.newRun then 0 else s.pos) ≤ x.idx ∧ it.treeSize ≤ x.idx ∧ x.idx < it.sth)) := by
+  -- entering `Run` afresh forgets the position: the invariant survives (it only gets weaker)
+  have h' : RunInv c ⟨if it.newRun then 0 else s.pos, s.dest⟩ := by
+    refine ⟨h.1, ?_⟩
+    intro i hi
+    cases hn : it.newRun with
+    | true => simp [hn] at hi
+    | false => simp only [hn, Bool.false_eq_true, if_false] at hi; exact h.2 i hi
+  unfold runIter
+  generalize (if it.newRun then 0 else s.pos) = p0 at h' ⊢
+  have hp2 : ∀ i, i < p0 → covered s.dest i := h'.2
+  simp only
+  by_cases hup : it.sth ≤ p0
+  · simp only [hup, if_true]
+    exact ⟨h', fun x hx => hx, fun x hx => Or.inl hx⟩
+  · simp only [hup, if_false]
+    have hstart : ∀ i, i < passStart true 0 it.treeSize p0 → covered s.dest i := by
+      intro i hi
+      simp only [passStart, if_true] at hi
+      by_cases h1 : i < it.treeSize
+      · exact hcontract i h1
+      · exact hp2 i (by omega)
+    have hstart2 : p0 ≤ passStart true 0 it.treeSize p0 ∧ it.treeSize ≤ passStart true 0 it.treeSize p0 := by
+      simp only [passStart, if_true]; omega
+    have hf := pass_faithful c (passStart true 0 it.treeSize p0) it.sth it.batch it.fetchers it.submitters s.dest it.ops h.1
+    have hm := pass_monotone c (passStart true 0 it.treeSize p0) it.sth it.batch it.fetchers it.submitters s.dest it.ops
+    have hd := dest_faithful c (passStart true 0 it.treeSize p0) it.sth it.batch it.fetchers it.submitters s.dest it.ops
+    have hadded : ∀ x ∈ (prun c (pinit (passStart true 0 it.treeSize p0) it.sth it.batch it.fetchers it.submitters s.dest) it.ops).dest,
+        x ∈ s.dest ∨ (p0 ≤ x.idx ∧ it.treeSize ≤ x.idx ∧ x.idx < it.sth) := by
+      intro x hx
+      rcases hd x hx with h1 | h1
+      · exact Or.inl h1
+      · right; omega
+    cases hok : passOk (prun c (pinit (passStart true 0 it.treeSize p0) it.sth it.batch it.fetchers it.submitters s.dest) it.ops) with
+    | true =>
+      simp only [if_true]
+      refine ⟨⟨hf, ?_⟩, fun x hx => hm x hx, hadded⟩
+      exact pass_extends_prefix c _ it.sth it.batch it.fetchers it.submitters s.dest it.ops hstart hok
+    | false =>
+      simp only [Bool.false_eq_true, if_false]
+      exact ⟨⟨hf, fun i hi => absurd hi (Nat.not_lt_zero i)⟩, fun x hx => hm x hx, hadded⟩
+
+/-- the destination's contract along a sequence of iterations -/
+def Contract (c : Cfg) : RunSt → List Iter → Prop
+  | _, [] => True
+  | s, it :: t => (∀ i, i < it.treeSize → covered s.dest i) ∧ Contract c (runIter c s it) t
+
+/-- **No gaps, reordering or conflicting duplicates across any history** of the continuous Controller: any number of iterations of
+`Run`'s loop, each starting where the regenerated start computation (`fetchTail_range_arith` = `passStart`) puts it, with growth of
+the source between passes, a lagging destination root, failed / cancelled passes and re-entries of `Run` (`newRun`: restart,
+mastership change — the position starts from 0 again). Under the destination's contract the invariant `RunInv` holds throughout:
+the destination is a faithful copy (equal indices ⇒ equal records) **and holds every index below the position** — so whenever a
+pass returns nil (position := its STH size) the whole prefix `[0, sth)` of the source is mirrored, without a gap — and no record
+is ever lost. -/
+theorem no_gap_reorder_conflict (c : Cfg) (s : RunSt) (its : List Iter) (h : RunInv c s) (hc : Contract c s its) :
+    RunInv c (runIters c s its) ∧ (∀ x ∈ s.dest, x ∈ (runIters c s its).dest) := by
+  induction its generalizing s with
+  | nil => exact ⟨h, fun x hx => hx⟩
+  | cons it t ih =>
+    obtain ⟨h1, h2⟩ := hc
+    have hi := controller_iter c s it h h1
+    have := ih (runIter c s it) hi.1 h2
+    exact ⟨this.1, fun x hx => this.2 x (hi.2.1 x hx)⟩
+
+/-- the seeded scenario of C16-3 in the model: source 4, then 6 entries; the destination's root stays at 0; the second pass
+fetches `[4, 6)`, not `[0, 6)` -/
+example : passStart true 0 0 4 = 4 := by decide
+example : (runIters (exCfg0) ⟨0, []⟩
+    [⟨true, 0, 4, 10, 1, 1, [.fetch (.hand 0), .fetch (.resp 0 4), .take 0 0, .ack 0, .fetch .close]⟩,
+     ⟨false, 0, 6, 10, 1, 1, [.fetch (.hand 0), .fetch (.resp 0 2), .take 0 0, .ack 0, .fetch .close]⟩]).dest.map (·.idx) = [0, 1, 2, 3, 4, 5]
+  ∧ (runIters (exCfg0) ⟨0, []⟩
+    [⟨true, 0, 4, 10, 1, 1, [.fetch (.hand 0), .fetch (.resp 0 4), .take 0 0, .ack 0, .fetch .close]⟩,
+     ⟨false, 0, 6, 10, 1, 1, [.fetch (.hand 0), .fetch (.resp 0 2), .take 0 0, .ack 0, .fetch .close]⟩]).pos = 6 := by decide
 
 /-! ## concrete instances -/
 
